@@ -9,4 +9,5 @@ CONSTANTS
  Shifts = {0, 5, 31}
  SymOffs = {1, 2}
  MaxNames = 3
+ PoolSel = "base"
 CHECK_DEADLOCK FALSE
